@@ -809,7 +809,7 @@ def suite_netsweep(ctx, can_run_model):
                     meta[sc[1]] = (drop, dupl, corr, is_cut, pl)
     impl = vlib.run_impl(scs, "ns-impl")
     model = vlib.run_model(scs, "ns-model") if can_run_model else {}
-    ctx.clauses.update(["C12:cut_unconditional", "C12:drop_iff_rate", "C12:corrupt_iff_rate", "C12:dup_iff_rate",
+    ctx.clauses.update(["C12:cut_unconditional", "C12:drop_iff_rate", "C12:corrupt_iff_rate", "C12:dup_iff_rate", "C12:corrupted_copies",
                         "C12:copies_bound", "C12:corrupt_once", "C12:same_node", "C12:corrupt_payload"])
     for sc in scs:
         sid = sc[1]
@@ -827,7 +827,8 @@ def suite_netsweep(ctx, can_run_model):
             ctx.monitor_failures.append({"clause": clause, "detail": detail, "scenario": vlib.scenario_text(sc),
                                          "impl": il[:40], "seed": ctx.seed, "suite": "NETSWEEP"})
         checks = [l for l in il if l.startswith("CHECK")]
-        saw = {"drop": False, "corr": False, "dup": False}
+        saw = {"drop": False, "corr": False, "dup": False, "corr2": False}
+        cpl = simmon.corrupt(pl)
         cross = " 0 1"   # src 0 dst 1
         for l in checks:
             tr = parse_trace_text(l)
@@ -849,6 +850,15 @@ def suite_netsweep(ctx, can_run_model):
                 saw["drop"] |= n_drop_x > 0
                 saw["corr"] |= n_cor_x > 0
                 saw["dup"] |= n_dup_x > 0
+                # deliveries of the CORRUPTED payload on this path (the simulator corrupts before it duplicates, so two or
+                # three corrupted copies of one send are possible)
+                ncd = 0
+                for e in tr:
+                    if e.startswith("McMessageReceived") and e.endswith(" 0 1"):
+                        m1, _ = simmon.parse_msg(e.split(), 1)
+                        if m1[1] == cpl and cpl != pl:
+                            ncd += 1
+                saw["corr2"] |= ncd >= 2
                 if n_dup_x > 2 or n_recv_x + n_drop_x > 1 + n_dup_x:
                     fail("C12:copies_bound", "recv=%d drop=%d dup=%d" % (n_recv_x, n_drop_x, n_dup_x))
                 if n_cor_x > 1 + n_dup_x:
@@ -868,6 +878,9 @@ def suite_netsweep(ctx, can_run_model):
                 fail("C12:corrupt_iff_rate", "corruption explored=%s with corruption rate %r" % (saw["corr"], corr))
             if saw["dup"] != (dupl != 0):
                 fail("C12:dup_iff_rate", "duplication explored=%s with duplication rate %r" % (saw["dup"], dupl))
+            if dupl and corr and cpl != pl and not saw["corr2"]:
+                fail("C12:corrupted_copies", "duplication and corruption rates are positive, but no explored path delivers two "
+                     "corrupted copies of the message (the simulator corrupts a message before duplicating it)")
         if (drop or dupl or corr) and len(checks) >= 3:
             ctx.nontrivial.add(sc_hash(sc))
         if len(ctx.samples) < 2:
@@ -1002,6 +1015,28 @@ def suite_clock(ctx, can_run_model):
 # ---------------------------------------------------------------------------------------------------
 # HANDOFF suite (C04, C15, C09 'source untouched')
 
+def identical_overlap(il):
+    """known finding F13 needs two IDENTICAL messages (payload, sender, receiver) in flight together: is there, in the
+    simulator's log of this scenario, a MessageSent while an earlier message with the same payload and endpoints may
+    still have a copy in flight (conservatively: until three of its copies were received / dropped)?"""
+    inflight = {}       # msg id -> [key, fates]
+    for l in il:
+        if l.startswith("LOG MessageSent "):
+            t = l.split()
+            mid = int(t[3])
+            key = (t[5], t[7], " ".join(t[8:]))
+            for (k2, fates) in inflight.values():
+                if k2 == key and fates < 3:
+                    return True
+            inflight[mid] = [key, 0]
+        elif l.startswith(("LOG MessageReceived ", "LOG MessageDropped ")):
+            t = l.split()
+            mid = int(t[3])
+            if mid in inflight:
+                inflight[mid][1] += 1
+    return False
+
+
 def suite_handoff(ctx, can_run_model):
     rng = random.Random(ctx.seed * 1000003 + 61)
     n = ctx.scale(300, 12000)
@@ -1023,6 +1058,7 @@ def suite_handoff(ctx, can_run_model):
     timpl = vlib.run_impl(twins, "ho-twin")
     ctx.clauses.update(["C04:sim_path_explored", "C13:feasible_schedule_explored", "C09:source_untouched", "C15:snapshot_no_panic", "C15:timer_remaining", "C15:crashed_nodes",
                         "C15:inflight_once"])
+    recheck = []      # inclusion failures in scenarios with corruption: is corruption really the cause?
     for (sc, tw, (rsc, feat, seed)) in zip(scs, twins, raw):
         sid = sc[1]
         ctx.evaluations += 1
@@ -1108,6 +1144,9 @@ def suite_handoff(ctx, can_run_model):
             ctx.count("inclusion_checked")
             if miss:
                 fail("C04:sim_path_explored", "%d of %d process-visible states of the continued simulation were not visited by the checker" % (len(miss), len(after)))
+                if feat.get("corrupt"):
+                    ctx.monitor_failures[-1]["identical_overlap"] = identical_overlap(il)
+                    recheck.append((sc, len(ctx.monitor_failures) - 1))
                 if not feat.get("corrupt"):
                     fail("C13:feasible_schedule_explored", "the schedule the timed simulator performs (%d of %d process-visible "
                          "states) is not among the explored ones" % (len(miss), len(after)))
@@ -1117,6 +1156,28 @@ def suite_handoff(ctx, can_run_model):
         if len(ctx.samples) < 2:
             ctx.samples.append({"scenario": "\n".join(l for l in vlib.scenario_text(sc).split("\n") if not l.startswith(("DRAWS", "CLOCK"))),
                                 "impl_observation_head": il[:6]})
+
+    # known finding F13 needs corruption: the same scenario with the corruption rate set to 0 consumes the same draws
+    # (the corruption draw is made regardless of the rate), so the schedule is unchanged; if the inclusion still fails
+    # there, corruption is not the cause and the failure is NOT matched by the F13 class
+    if recheck:
+        variants = []
+        for (sc, idx) in recheck:
+            lines = [("OP NET CORRUPTRATE 0" if l.startswith("OP NET CORRUPTRATE ") else l) for l in sc[2]]
+            variants.append(("HANDOFF", sc[1] + "-nocorrupt", lines))
+        vimpl = vlib.run_impl(variants, "ho-nocorrupt")
+        for (v, (sc, idx)) in zip(variants, recheck):
+            vl = vimpl.get(v[1], [])
+            res = [l for l in vl if l.startswith("RESULT")]
+            still = False
+            if res and res[0] == "RESULT OK" and "SNAPSHOT" in vl:
+                k = vl.index("SNAPSHOT")
+                pvs = set(KV_PV.search(l).group(1) for l in vl if l.startswith("CHECK"))
+                kk = k + max([i for i, l in enumerate(vl[k:]) if l.startswith("AFTERMODE")] + [0]) + 1
+                after = [l for l in vl[kk:] if l.startswith("PV ")]
+                still = any(l.split()[1] not in pvs for l in after)
+            ctx.monitor_failures[idx]["corruption_independent"] = still
+            ctx.count("f13_rechecked")
 
 
 KV_PV = re.compile(r"pv=(\d+)")
@@ -1602,7 +1663,10 @@ KNOWN_CLASS = {
     # F14: clock-reading programs: equal states at different depths have different futures
     "F14_clock": lambda mf: bool(mf.get("feat", {}).get("clock")),
     # F13: a corruptible copy is withheld behind an identical older copy (scenarios with a positive corruption rate)
-    "F13_corrupt_behind_identical": lambda mf: bool(mf.get("feat", {}).get("corrupt")),
+    # (and the failure goes away when the corruption rate is set to 0 in the same scenario with the same draws)
+    # and two identical messages were in flight together at some point of the scenario
+    "F13_corrupt_behind_identical": lambda mf: bool(mf.get("feat", {}).get("corrupt")) and not mf.get("corruption_independent")
+                                               and bool(mf.get("identical_overlap")),
     # F10 seen through the hand-off: programs that override pending timers
     # F15: the two initialisation routes differ when one process holds two timers whose insertion order is not their
     # firing order: the snapshot orders them by real firing time, the callback route explores both orders
